@@ -341,6 +341,32 @@ func init() {
 				c.Fail(key, c.P.InstrPos(in), "Sessions[sessionId] is overwritten without re-checking under the write lock: two concurrent first relays of one session id (both saw SessionDoesNotExist under the read lock) create two sessions, both locked and in progress")
 			}
 		})
+		// the same for the per-project record that carries the epoch's CU counter
+		if rnc := c.Fn("protocol/lavasession.ProviderSessionManager.registerNewConsumer"); rnc != nil {
+			nins := 0
+			ir.EachInstr(rnc, func(in ssa.Instruction) {
+				mu, ok := in.(*ssa.MapUpdate)
+				if !ok || !strings.HasSuffix(ir.Desc(mu.Map), ".sessionMap") {
+					return
+				}
+				nins++
+				found := false
+				for _, g := range ir.Guards(in) {
+					if strings.HasPrefix(g.Fact, "!") && strings.Contains(g.Fact, ".sessionMap["+ir.Desc(mu.Key)+"]#1") {
+						found = true
+					}
+				}
+				key := "C27f/registerNewConsumer/project-record-inserted-only-if-absent"
+				if found {
+					c.OK(key, c.P.InstrPos(in), "dominated by the not-found outcome of a lookup of the same project id")
+				} else {
+					c.Fail(key, c.P.InstrPos(in), "sessionMap[projectId] is (re)assigned without the record being absent: a second consumer address of the same project, registering concurrently, replaces the project's record and resets its used-CU counter for the epoch")
+				}
+			})
+			if nins == 0 {
+				c.Undecided("C27f: no insertion into sessionMap found in registerNewConsumer")
+			}
+		}
 
 		c.Rule("C27g release: onSessionDone and onSessionFailure unlock the session on every path after the VerifyLock assertion; DisbandSession unlocks only when LatestRelayCu==0")
 		for _, f := range []*ssa.Function{done, fail} {
